@@ -122,6 +122,77 @@ CLAIMS.update({
   design='§8.6'),
 })
 
+CLAIMS.update({
+ 'C05': dict(category='proof',
+  text=('Proved for all values (closed): the parse/record codecs of the core structures are mutually inverse -- directory records (C05_dr_roundtrip, '
+        'C05_dr_record_parse_record: what parse returns records to the same bytes; false for arbitrary foreign bytes: _refuted), path table records in both '
+        'byte orders, both-byte-order integers, 7-byte dates; a record fits iff dr_len <= 255 and fields in range.  The model (Model/Codec.v) splits and '
+        'joins fields with the struct layouts TRANSLATED from the FMT strings of /repo, and is compared byte for byte with DirectoryRecord.record / '
+        'PathTableRecord.record_*_endian on every record of generated images plus extreme field values.  The whole-image fixpoint for every structure the '
+        'library knows (Rock Ridge incl. version inference, Joliet, XA, El Torito, UDF, isohybrid MBR/GPT/APM) is evaluated directly: open+write twice, '
+        'bytes compared except volume-modification dates, on every generated image incl. boundary recipes and SL-boundary symlinks.'),
+  note=('Rock Ridge / UDF / El Torito / hybrid parse-record pairs are NOT modelled in Coq; for them the fixpoint is sampled.  Trusted: Coq kernel + vm_compute, '
+        'translator (FMT layouts), hand model tied by leaf run, pinned time.time.'),
+  technique='Coq round-trip proofs for record codecs over translated layouts + byte-level leaf run + open/write fixpoint on generated images',
+  design='§8.5'),
+ 'C07': dict(category='proof',
+  text=('Proved (closed) on the specification, where the multiplicity of a blob in live_blobs is its reference count (names in any namespace + El Torito '
+        'entries): add_hard_link adds exactly one reference; rm_hard_link removes exactly one name and one reference and touches no other content; the content '
+        'survives iff another reference remains and is released exactly at the last one; rm_file removes precisely the names of the addressed content (count -> 0, '
+        'all other counts unchanged) and is refused while an El Torito entry references it; rm_eltorito releases only contents without another name; reopening '
+        'preserves the counts of non-empty contents.  Tie on every run: the data space held by the object after EVERY edit (sum over PyCdlib.inodes) equals the '
+        'space of the distinct live blobs of the specification evaluated in Coq; API views after write+reopen (1-3 generations) equal the specification; data '
+        'extents in the image shared iff linked.  Recipes: same-named links in different directories, boot file names removed after reopen.'),
+  note=('The theorems are about the specification; pycdlib is tied by the per-edit probe and the view comparison (sampling).  Zero-length contents hold no space and lose '
+        'cross-namespace link identity when reopened (stated in FsSpec.Reopen).'),
+  technique='Coq reference-count theorems on the specification + per-edit data-space probe and view correspondence evaluated in Coq',
+  design='§8.7'),
+ 'C08': dict(category='proof',
+  text=('Proved for all inputs (closed) over hand models of RockRidge._add_name/_new_symlink/RRSLRecord/symlink_path and of the continuation allocator: a name of ANY length '
+        'splits into NM entries that concatenate to it, each fitting its entry; a symlink target of ANY length reassembles (RRIP 4.1.3 reader) to exactly the target provided '
+        'no path piece starts with "." other than "."/".." (C08_symlink_roundtrip); the unguarded claim and the no-continuation-entry case are REFUTED with witnesses reproduced '
+        'on pycdlib (known findings); record- vs component-level CONTINUE discipline; continuation areas disjoint and inside their sector for every add/remove history.  Tie: the '
+        'models vs the real methods on every run (targets around every record/component boundary).  The property itself on generated Rock Ridge images (1.09/1.10/1.12 x XA, long '
+        'names, CE gaps of exactly the needed size +-1, trees deeper than 8): an independent SUSP/RRIP reader recovers names, types, PX mode types, link counts, targets, the logical '
+        'tree; entry lengths, CE/CL/PL pointers.'),
+  note=('Relocation (CL/PL/RE), link-count maintenance and _assign_entries placement are decided on sampled images by the reader, not by theorems. Link counts are not compared on images with a relocated directory.'),
+  technique='Coq round-trip proofs for NM/SL splitting and CE allocator invariant + leaf runs + independent SUSP/RRIP reader on generated images',
+  design='§8.8'),
+ 'C09': dict(category='proof',
+  text=('Proved (closed): UTF-16BE encode/decode is lossless for every Unicode scalar sequence; a name accepted by the rule as coded (<= 64 UTF-8 bytes) needs <= 64 UCS-2 units, its identifier <= 128 bytes '
+        'and its directory record <= 254 bytes with or without XA -- accepted names are never truncated; the rule over-refuses (refusal, allowed).  Frame theorem: a Joliet-only edit leaves the other '
+        'namespaces untouched.  Tie: codec model vs Python\'s codec on every run.  The property itself: name grid around 64 units/64 bytes (BMP, non-BMP; files and directories; levels 1-3): refused or stored '
+        'exactly; on generated Joliet images the independent reader\'s Joliet tree equals the tree built, every Joliet file shares the extents of its ISO9660 link, SVD sizes/path tables consistent.'),
+  note='Joliet path tables and directory sizes reuse the C03/C04 machinery (sampled per image). Trusted: Coq kernel + vm_compute, LongNames.v (UTF-16 part), reader.',
+  technique='Coq codec round-trip and fit proofs + name-limit grid + independent reader on generated Joliet images',
+  design='§8.9'),
+ 'C10': dict(category='proof',
+  text=('Proved (closed) about functions TRANSLATED from /repo on every run: the table-driven tag CRC equals bitwise CRC-16/XMODEM for ALL byte strings (256-entry table sweep + induction), a tag carrying '
+        '_compute_csum verifies, File Identifier Descriptor lengths are multiples of 4 covering header+name, ceiling_div covers.  The translations are validated against the Python functions on every run.  '
+        'Everything else is decided on generated UDF images (fresh and reopened-then-edited; identifier areas ending exactly on a sector boundary; Latin-1/UCS-2 names; non-Latin-1 symlink components; '
+        'cross-namespace links; empty files) by an independent ECMA-167 reader that starts from the recognition sequence and the anchors, verifies every tag it passes, partition bounds and information '
+        'lengths, and must recover exactly the tree, names, targets and bytes.'),
+  note='partial: partition/anchor/integrity accounting and the ~40 descriptor classes are NOT modelled in Coq; they are checked by the reader on sampled images only.',
+  technique='Coq proofs over translated CRC/checksum/length functions + independent ECMA-167 reader on generated images',
+  design='§8.10'),
+ 'C11': dict(category='proof',
+  text=('Proved (closed) about the TRANSLATED EltoritoValidationEntry._checksum: for every 32-byte entry the sixteen LE words plus the checksum sum to 0 mod 2^16 and the stored entry verifies; in the specification '
+        'rm_eltorito removes exactly the catalog names and boot references.  Translation validated against the Python method on every run.  The property itself on generated bootable images (1-6 entries, '
+        'platform ids, load sizes, boot info tables, multi-sector boot files followed by data, edits after add_eltorito, reopen in the middle): boot record at 17, validation entry, every entry of the header '
+        'chain vs the boot file\'s sector and bytes, boot-info-table fields as stored and as read back, catalog readable under all its names; add+rm_eltorito gives byte-identically the image without El Torito.'),
+  note='Pointer assignment and catalog encoding are not modelled in Coq (sampled). floppy/hdemul media are not generated.',
+  technique='Coq proof over translated validation checksum + independent reader and byte comparison on generated bootable images',
+  design='§8.11'),
+ 'C12': dict(category='proof',
+  text=('Proved (closed) about TRANSLATED functions: _calc_cc pads every size to whole cylinders for every geometry and the cylinder count is exact up to 1024 cylinders; beyond it is clamped and the partition '
+        'no longer covers the image (explicit theorem + witness: known finding); table-driven crc32 equals the bitwise reflected CRC-32 for ALL byte strings.  Leaf: IsoHybrid.record decoded independently over '
+        '8 geometries x cylinder counts around 1/256/512/768/1024.  Image level: MBR signature, exactly one active partition covering the padded image, boot address = 4 x boot sector, GPT CRCs and mirror, padding, '
+        'no overlap of the backup GPT with the volume, rest of the image equal to the non-hybrid image; also write - add files - write schedules.'),
+  note='GPT/APM encoders are not modelled in Coq (reader on sampled images).',
+  technique='Coq proofs over translated _calc_cc and crc32 + MBR leaf grid + independent reader on generated hybrid images',
+  design='§8.12'),
+})
+
 NA_REASON = 'check not built yet (work in progress; see DESIGN.md section 8)'
 
 
